@@ -134,8 +134,8 @@ func VerifFaults() {
 			nFault++
 		case "dbfault":
 			nFault++
-			if string(e.B[0]) == "query" {
-				queryFault = true
+			if string(e.B[0]) == "query" || string(e.B[0]) == "rows.next" {
+				queryFault = true // the read of the previous checkpoint failed
 			}
 		case "Sign":
 			nSign++
